@@ -714,7 +714,15 @@ class Tensor:
             if out is not None:
                 kwargs["out"] = caster(out)
             # returns ndarray
-            return getattr(ufunc, method)(*(caster(t) for t in inputs), **kwargs)
+            return getattr(ufunc, method)(
+                *(caster(t) for t in inputs),
+                # a tensor-valued option (e.g. a `where` mask) would be
+                # dispatched back to mygrad by NumPy
+                **{
+                    k: (v.data if isinstance(v, Tensor) else v)
+                    for k, v in kwargs.items()
+                },
+            )
         except _ConstantOnly:
             raise ValueError(
                 f"{repr(ufunc)} cannot involve non-constant mygrad tensors."
